@@ -273,6 +273,19 @@ def _nlargest(ex, args, kwargs, node):
   return VListRef(r)
 
 
+def sorted_copy(ex, q, descending):
+  """sorted(q, reverse=descending) for a tracked list."""
+  h = lheap(ex.ctx)
+  r = h['alloc']
+  one = z3.Select(h['len'], q.ref) <= 1
+  h['alloc'] = r + 1
+  h['bag'] = z3.Store(h['bag'], r, z3.Select(h['bag'], q.ref))
+  h['len'] = z3.Store(h['len'], r, z3.Select(h['len'], q.ref))
+  h['desc'] = z3.Store(h['desc'], r, z3.BoolVal(True) if descending else one)
+  h['heap'] = z3.Store(h['heap'], r, one if descending else z3.BoolVal(True))
+  return VListRef(r)
+
+
 @lib('heapq.nsmallest', 'nsmallest: ascending order (never descending)')
 def _nsmallest(ex, args, kwargs, node):
   ctx = ex.ctx
